@@ -12,7 +12,7 @@ import (
 
 var ruleD4 = &Rule{
 	ID:    "D4",
-	Floor: 4,
+	Floor: 2, // readers of the limit; a shared applyLimit helper legitimately merges them
 	Doc: "limit == 0 means `no limit` in the LogQL translators (SSA): every live function of reader/logql that reads PlannerContext.Limit has that value — followed through conversions, local cells (also captured by closures) and fields of objects it is stored into (field-based, so the test may live in a method of a helper object) — compared with the constant zero (==, !=, >, <=, <, >=) somewhere in reader/logql; " +
 		"a reader that uses it unconditionally disagrees with its siblings, which treat 0 as unlimited",
 	Run: func(c *Ctx) []Obl {
